@@ -58,10 +58,14 @@ impl SeqGuard {
     pub fn insert(&mut self, k: String, v: u64) -> (r: Option<u64>)
         requires
             old(self)@.contains_key(k@) ==> (v == old(self)@[k@] || (v == old(self)@[k@] + 1 && appended(k@, old(self)@[k@]))),  // [seq.insert.requires_advance_by_one_after_append]
-            !old(self)@.contains_key(k@) ==> reserved(k@, v),                                                                         // [seq.insert.requires_reserved_init]
+            // a counter that does not exist yet is initialised to the reserved value, or to the value after the frame that was
+            // appended with the reserved value (a new thread: creation frame at the reserved seq 0, counter 1)
+            !old(self)@.contains_key(k@) ==> (reserved(k@, v) || (v >= 1 && reserved(k@, (v - 1) as u64) && appended(k@, (v - 1) as u64))),   // [seq.insert.requires_reserved_init]
         ensures
             final(self)@ == old(self)@.insert(k@, v),
             (old(self)@.contains_key(k@) && v == old(self)@[k@] + 1) ==> advanced(k@, v),
+            // what the held guard now stores for the stream is its next free seq (exactly what `get` on this guard would report)
+            reserved(k@, v),
     { unimplemented!() }
 }
 } // verus!
